@@ -23,6 +23,8 @@ CHECKS = {
          "per generated definition the emitted key/literal list equals what serde_json actually printed; 9 rename_all x 18 field-attribute variants x 13 identifier shapes (fields) and 6 variant-attribute variants x 10 shapes (variants); 1 oracle build in quick, 8 in thorough", "4 C06"),
  "C07": ("exploration", "runtime monitor: generated type-dependency graphs with ground-truth reachability; declared type set parsed from types.ts and compared",
          "held on everything observed: every edge context (18) x root kind (7) systematically plus 300 (quick) / 4 000 (thorough) random graphs of 2-10 types over 1-5 files with cycles, unreachable, non-serde and error-arm-only decoys, both modes", "4 C07"),
+ "C08": ("exploration", "runtime monitor (differential over histories): edit / non-forced-run sequences against the real CLI and the real build-script entry point; after every successful run the output directory is compared with the tool's own forced generation of the current state",
+         "held on everything observed: 37 edit classes; all length-1 histories on both paths and modes, all ordered length-2 histories on the CLI path, sampled length-2 on the build path and with skipped intermediate runs, sampled length 3 (thorough: length-2 exhaustive on both paths, 12 000 length-3, 1 500 of length 4-7); evidence counts cache hits actually observed", "4 C08"),
  "C09": ("exploration", "runtime monitor: Zod-mode runs of the real CLI over enumerated DAGs under replayable hash seeds; declaration-before-use scan over the parsed types.ts",
          "held on everything observed: all labelled DAGs on <=3 (quick) / <=4 (thorough) nodes x 6 uniform edge contexts x 8/32 hash seeds (incl. OS-entropy processes) plus sampled DAGs to 6 nodes with mixed contexts; evidence reports distinct schema orders observed", "4 C09"),
  "C10": ("exploration", "runtime monitor: each project generated in both modes by the real CLI; plain declarations and Zod schemas parsed into one shape model and diffed key by key; serde_json values replayed through a mini-Zod interpreter of the emitted parameter schemas",
